@@ -49,15 +49,17 @@ def build_records(quick: bool) -> list[dict[str, Any]]:
         b = {'metadata': {'name': 'o', 'namespace': 'ns', 'uid': 'u'}, 'spec': {}}
         if la != '-': b['metadata']['labels'] = {'a': la}
         if lb != '-': b['metadata'].setdefault('labels', {})['b'] = lb
-        if f: b['spec']['f'] = f
+        if f: b.setdefault('status', {})['f'] = FVAL[f]
         if deleting: b['metadata'].update(deletionTimestamp='t', finalizers=['kopf.zalando.org/KopfFinalizerMarker'])
         return b
 
+    # the field of the criteria lives outside the default essence (status.f): it gets into the old/new states only as a
+    # handler-declared extra field, through the REAL diff-base builder; value 3 is a present but falsy value (False)
+    FVAL = {1: 1, 2: 2, 3: False}
+    dbs = kopf.AnnotationsDiffBaseStorage()
+
     def ess(la, f, lb='-'):
-        e: dict[str, Any] = {'spec': {'f': f} if f else {}}
-        if la != '-': e['metadata'] = {'labels': {'a': la}}
-        if lb != '-': e.setdefault('metadata', {}).setdefault('labels', {})['b'] = lb
-        return e
+        return dict(dbs.build(body=bodies.Body(body_of(la, f, lb=lb)), extra_fields={('status', 'f')}))
 
     recs = []
     log = logging.getLogger('c15')
@@ -76,7 +78,7 @@ def build_records(quick: bool) -> list[dict[str, Any]]:
                     labels['b'] = 'y' if lab2 == 'eq' else kopf.ABSENT        # listed AFTER the criterion on label a
                 kw: dict[str, Any] = dict(registry=None, id='h', labels=labels, when=when_of[when])
                 if val != 'none' or old_c != 'none' or new_c != 'none':
-                    kw['field'] = 'spec.f'
+                    kw['field'] = 'status.f'
                     if val in val_of: kw['value'] = val_of[val]
                 if upd: kw.update(old=on_of[old_c], new=on_of[new_c])
                 if kind == 'field' and 'field' not in kw:
@@ -91,7 +93,7 @@ def build_records(quick: bool) -> list[dict[str, Any]]:
                 for reason in reasons:
                     if kind == 'field' and reason != 'update':
                         continue    # @kopf.on.field on non-update causes is outside the judged space (see DESIGN.md)
-                    for la, lb, fo, fn in itertools.product(['-', 'x', 'y'], ['-', 'y'] if lab2 != 'none' else ['-'], [0, 1, 2], [0, 1, 2]):
+                    for la, lb, fo, fn in itertools.product(['-', 'x', 'y'], ['-', 'y'] if lab2 != 'none' else ['-'], [0, 1, 2, 3], [0, 1, 2, 3]):
                         if reason in ('create', '-') and fo: continue
                         if reason == 'resume' and fo != fn: continue
                         if reason == 'update' and fo == fn: continue
